@@ -472,12 +472,42 @@ class BoundMethod(object):
         self.name = name
 
 
-class Opaque(object):
-    """A value the executor knows nothing about (havoc)."""
-    __slots__ = ("tag",)
+class RangeIdx(object):
+    """numpy.arange(lo, hi) used as an index array: the integers lo <= i < hi."""
+    __slots__ = ("lo", "hi")
 
-    def __init__(self, tag="?"):
+    def __init__(self, lo, hi):
+        self.lo = lo
+        self.hi = hi
+
+
+class SuperProxy(object):
+    """`super()` inside a method of class `after` on instance `selfval`: attribute lookup continues in the MRO after that class."""
+    __slots__ = ("selfval", "after")
+
+    def __init__(self, selfval, after):
+        self.selfval = selfval
+        self.after = after
+
+
+class BoundFunc(object):
+    """A specific function of the real source bound to a receiver (result of `super().name`): its real body is executed at the call."""
+    __slots__ = ("selfval", "finfo")
+
+    def __init__(self, selfval, finfo):
+        self.selfval = selfval
+        self.finfo = finfo
+
+
+class Opaque(object):
+    """A value the executor knows nothing about (havoc).  `deps`: when the value was produced by a pure (numpy) operation the executor
+    does not interpret, the names of the input symbols it was computed from (None: unknown) -- enough for frame / data-flow clauses of
+    the form "this quantity is a function of the arguments of this call only"."""
+    __slots__ = ("tag", "deps")
+
+    def __init__(self, tag="?", deps=None):
         self.tag = fresh_name(tag)
+        self.deps = deps
 
     def __repr__(self):
         return "Opaque(%s)" % self.tag
@@ -597,3 +627,56 @@ class TabVal(object):
 
     def __repr__(self):
         return "Tab%dx%d" % self.shape
+
+
+def deps_of(v, _depth=0):
+    """Names of the symbols a value is built from, or None when that is not known."""
+    if v is None or isinstance(v, (bool, int, Fraction, str, float)):
+        return frozenset()
+    if isinstance(v, Opaque):
+        return v.deps if v.deps is not None else (frozenset([v.tag.split("!")[0]]) if v.tag.startswith(("stale", "sym:")) else None)
+    if isinstance(v, Poly):
+        return frozenset(sym for mono in v.terms for sym, _ in mono)
+    if isinstance(v, LinComb):
+        out = set()
+        for a, c in v.terms.items():
+            d = deps_of(c, _depth + 1)
+            if d is None:
+                return None
+            out |= d
+            if a.key[0] == "sym":
+                out.add(a.key[1])
+            else:
+                for x in a.key[2:]:
+                    d = deps_of(x, _depth + 1)
+                    if d is None:
+                        return None
+                    out |= d
+        return frozenset(out)
+    if isinstance(v, BlockVec):
+        return _union(deps_of(b, _depth + 1) for b in v.blocks)
+    if isinstance(v, ConcVec):
+        return _union(deps_of(b, _depth + 1) for b in v.items)
+    if isinstance(v, tuple):
+        return _union(deps_of(b, _depth + 1) for b in v)
+    if is_z3(v):
+        out, stack, seen = set(), [v], set()
+        while stack:
+            x = stack.pop()
+            if x.get_id() in seen:
+                continue
+            seen.add(x.get_id())
+            if z3.is_const(x) and x.decl().kind() == z3.Z3_OP_UNINTERPRETED:
+                out.add(x.decl().name().split("!")[0])
+            stack.extend(x.children())
+        return frozenset(out)
+    return None
+
+
+def _union(ds):
+    out = set()
+    for d in ds:
+        if d is None:
+            return None
+        out |= d
+    return frozenset(out)
